@@ -44,6 +44,9 @@ pub fn fault_classes() -> Vec<(&'static str, E)> {
         ("builtin-arity-plus", mcall(E::Int(1), "+", vec![E::Int(1), E::Int(2)])),
         ("builtin-arity-minus", mcall(E::Int(1), "+", vec![])),
         ("array-get-arity", mcall(var("c10a"), "get", vec![])),
+        ("array-get-extra-argument", mcall(var("c10a"), "get", vec![E::Int(0), E::Int(1)])),
+        ("array-set-missing-value", mcall(var("c10a"), "set", vec![E::Int(0)])),
+        ("array-set-extra-argument", mcall(var("c10a"), "set", vec![E::Int(0), E::Int(1), E::Int(2)])),
         ("index-minus-one", index(var("c10a"), E::Int(-1))),
         ("index-equals-length", index(var("c10a"), E::Int(3))),
         ("index-non-integer", index(var("c10a"), E::Bool(true))),
@@ -55,8 +58,8 @@ pub fn fault_classes() -> Vec<(&'static str, E)> {
         ("int-less-null", bin("<", E::Int(1), E::Null)),
         ("bool-and-int", bin("&", E::Bool(true), E::Int(1))),
         ("null-plus-int", bin("+", E::Null, E::Int(1))),
-        ("print-placeholder-too-many", print("x ~ y ~\\n", vec![E::Int(1)])),
-        ("print-argument-too-many", print("x ~\\n", vec![E::Int(1), E::Int(2)])),
+        ("print-placeholder-too-many", print("x ~ é ~\\n", vec![E::Int(1)])),
+        ("print-argument-too-many", print("ž ~\\n", vec![E::Int(1), E::Int(2)])),
         ("division-by-zero", bin("/", E::Int(1), E::Int(0))),
         ("remainder-by-zero", bin("%", E::Int(1), E::Int(0))),
         ("min-div-minus-one", bin("/", E::Int(i32::MIN), E::Int(-1))),
@@ -193,13 +196,34 @@ impl Runner {
 
 /// Judge one program against the reference on the real binary.
 fn judge_cli(prog: &Prog, r: &refsem::RunResult, run: &mut Runner, debug: bool, ctx: &mut Ctx, case: &dyn Fn() -> Value, what: &str) -> Judged {
+    judge_cli_how(prog, r, run, debug, false, ctx, case, what)
+}
+
+/// `via_execute`: compile in-process, then `fml execute FILE` (the statement covers run AND execute)
+fn judge_cli_how(prog: &Prog, r: &refsem::RunResult, run: &mut Runner, debug: bool, via_execute: bool, ctx: &mut Ctx, case: &dyn Fn() -> Value, what: &str) -> Judged {
     ctx.eval();
     let src = render::text(prog, render::Style::Minimal);
-    let o = match run.run_source(src.as_bytes(), debug) {
-        Ok(o) => o,
-        Err(e) => return Err(Violation::new("harness-error", format!("cannot run fml: {}", e), json!({}))),
+    let o = if via_execute {
+        let image = match fmlrun::pipeline(&src) {
+            Ok(p) => p.bytes,
+            Err(_) => return Ok(()),
+        };
+        let f = run.sc.file("case.bc");
+        if std::fs::write(&f, &image).is_err() {
+            return Ok(());
+        }
+        ctx.label("via-execute");
+        match cli::run_fml(if debug { &run.debug } else { &run.release }, &["execute", f.to_str().unwrap()]) {
+            Ok(o) => o,
+            Err(e) => return Err(Violation::new("harness-error", format!("cannot run fml: {}", e), json!({}))),
+        }
+    } else {
+        match run.run_source(src.as_bytes(), debug) {
+            Ok(o) => o,
+            Err(e) => return Err(Violation::new("harness-error", format!("cannot run fml: {}", e), json!({}))),
+        }
     };
-    let bin = if debug { "debug" } else { "release" };
+    let bin = if via_execute { "release, fml execute" } else if debug { "debug" } else { "release" };
     if let Status::Signal(s) = o.status {
         return ctx.settle(Violation::new("native-crash", format!("{}: fml ({}) died on signal {}", what, bin, s), case()).with("what", what));
     }
@@ -285,7 +309,7 @@ fn injection_campaign(tape: &[u8], ctx: &mut Ctx, run: &mut Runner) -> Judged {
         ctx.label(&format!("class:{}", cname));
         let case = || json!({"source": render::pretty(&prog), "ir": serde_json::to_value(&prog).unwrap(), "fault": cname, "list": li, "position": pos});
         let debug = k % 10 == 3;
-        judge_cli(&prog, &r, run, debug, ctx, &case, &format!("fault {} at list {} position {}", cname, li, pos))?;
+        judge_cli_how(&prog, &r, run, debug, k % 7 == 5, ctx, &case, &format!("fault {} at list {} position {}", cname, li, pos))?;
         if reached && r.out.contains('<') {
             ctx.nontrivial(render::text(&prog, render::Style::Minimal).as_bytes());
             if k % 97 == 0 {
@@ -422,6 +446,22 @@ fn shapes(tier: Tier) -> Vec<Shape> {
             n = n
         );
         v.push(Shape { name: format!("field-cycle-{}", n), src: s, expect: None, debug_too: n <= 8 || n == 64 });
+        if n <= 64 || n == 1000 {
+            // a cycle that runs through parent links: the leaf's ancestor holds the leaf in a field
+            let s = format!(
+                "function mk(p) -> object extends p begin let link = null end; let root = mk(null); let cur = root; let i = 1; while i < {n} do begin cur <- mk(cur); i <- i + 1 end; root.link <- cur; print(\"built\\n\"); print(\"~\\n\", cur); print(\"after\\n\")",
+                n = n
+            );
+            v.push(Shape { name: format!("parent-cycle-{}", n), src: s, expect: None, debug_too: n <= 4 });
+        }
+        if n <= 8 {
+            // the back edge sits in an array that is the ancestor at the end of the chain
+            let s = format!(
+                "function mk(p) -> object extends p begin end; let arr = array(2, 0); let cur = mk(arr); let i = 1; while i < {n} do begin cur <- mk(cur); i <- i + 1 end; arr[1] <- cur; print(\"built\\n\"); print(\"~\\n\", cur); print(\"after\\n\")",
+                n = n
+            );
+            v.push(Shape { name: format!("array-parent-cycle-{}", n), src: s, expect: None, debug_too: true });
+        }
         if n <= 64 {
             let s = format!(
                 "function mk() -> object begin let next = null end; let first = mk(); let cur = first; let i = 1; while i < {n} do begin let nx = mk(); let box = array(2, 7); box[1] <- nx; cur.next <- box; cur <- nx; i <- i + 1 end; cur.next <- array(1, first); print(\"built\\n\"); print(\"~\\n\", first); print(\"after\\n\")",
@@ -622,7 +662,7 @@ impl Property for C10 {
         "C10"
     }
     fn rule(&self) -> String {
-        "cases, all on the real binaries (release; debug for a sample): (a) base programs from the typed generator that succeed per the reference semantics, with a marker print before every statement of every statement list (top level, blocks, function, method and loop bodies); one fault of each of 34 classes injected at every statement position (thinned to a bound per base program, counts reported); oracle = reference semantics: stdout exactly the output up to the fault, non-zero non-signal exit, stderr non-empty; un-injected base: exit 0, empty stderr, exact stdout; (b) token-level mutations of rendered programs (delete/duplicate/swap/insert tokens, unbalanced brackets, unterminated string/comment, bad escape, out-of-range literal, stray bytes incl. invalid UTF-8): rejected by the in-process parser => exit non-zero, no signal, empty stdout, diagnostic; (c) heap cycles of every length 1..64 (+100, 1000; thorough 10^4) through arrays, fields and both, acyclic chains of 10/100/1000 links through elements, fields and parents (print and dispatch, exact output), FML recursion depth 10/10^3/10^5 (functions and methods), source nesting 50/100/150/200 of 8 constructs: never a signal. non-trivial: the injected fault is reached after >=1 marker, or the source is rejected, or a shape case; distinct by source".into()
+        "cases, all on the real binaries (release; debug for a sample): (a) base programs from the typed generator that succeed per the reference semantics, with a marker print before every statement of every statement list (top level, blocks, function, method and loop bodies); one fault of each of 37 classes injected at every statement position (thinned to a bound per base program, counts reported); oracle = reference semantics: stdout exactly the output up to the fault, non-zero non-signal exit, stderr non-empty; un-injected base: exit 0, empty stderr, exact stdout; (b) token-level mutations of rendered programs (delete/duplicate/swap/insert tokens, unbalanced brackets, unterminated string/comment, bad escape, out-of-range literal, stray bytes incl. invalid UTF-8): rejected by the in-process parser => exit non-zero, no signal, empty stdout, diagnostic; (c) heap cycles of every length 1..64 (+100, 1000; thorough 10^4) through arrays, fields and both, acyclic chains of 10/100/1000 links through elements, fields and parents (print and dispatch, exact output), FML recursion depth 10/10^3/10^5 (functions and methods), source nesting 50/100/150/200 of 8 constructs: never a signal. non-trivial: the injected fault is reached after >=1 marker, or the source is rejected, or a shape case; distinct by source".into()
     }
     fn assumptions(&self) -> Vec<String> {
         vec![
